@@ -368,12 +368,13 @@ func (p *c17) Run(i int) (res fw.Result) {
 	// (a) writer failing at every k
 	if r0.err == nil {
 		for k := 1; k <= W; k++ {
-			for _, partial := range []bool{false, true} {
-				w := &mon.FaultWriter{FailAt: k, Partial: partial}
+			for mode := 0; mode < 3; mode++ {
+				partial := mode == 1
+				w := &mon.FaultWriter{FailAt: k, Partial: partial, Full: mode == 2}
 				r := runExec(newEnv(base), false, main, w, ctx)
 				res.Evals++
 				res.AddObs("writer_faults", 1)
-				sub := fmt.Sprintf("w%d/%v", k, partial)
+				sub := fmt.Sprintf("w%d/%s", k, []string{"rejected", "half-accepted", "all-accepted-with-error"}[mode])
 				switch {
 				case r.pan != nil:
 					fail("panic", sub, fmt.Sprintf("writer failing at write %d: Execute panicked: %v", k, r.pan))
@@ -388,12 +389,24 @@ func (p *c17) Run(i int) (res fw.Result) {
 				}
 			}
 		}
-		// ExecuteSafe with a failing writer must report it
-		w := &mon.FaultWriter{FailAt: 1}
-		r := runExec(newEnv(base), true, main, w, ctx)
-		res.Evals++
-		if ref != "" && r.err == nil {
-			fail("swallowed-write-error", "safe-w1", "ExecuteSafe returned nil although the destination writer failed")
+		// ExecuteSafe with a failing writer must report it - and what it could not deliver is gone: the next
+		// successful ExecuteSafe (same environment, then a fresh one) delivers its own output and nothing else
+		envS := newEnv(base)
+		for mode := 0; mode < 3; mode++ {
+			w := &mon.FaultWriter{FailAt: 1, Partial: mode == 1, Full: mode == 2}
+			r := runExec(envS, true, main, w, ctx)
+			res.Evals++
+			if ref != "" && r.err == nil {
+				fail("swallowed-write-error", fmt.Sprintf("safe-w1/%d", mode), "ExecuteSafe returned nil although the destination writer failed")
+			}
+			for _, e := range []*stick.Env{envS, newEnv(base)} {
+				w2 := &mon.FaultWriter{}
+				r2 := runExec(e, true, main, w2, ctx)
+				res.Evals++
+				if r2.err != nil || string(w2.Got) != ref {
+					fail("safe-differs", fmt.Sprintf("safe-after-failed-delivery/%d", mode), fmt.Sprintf("after an ExecuteSafe whose destination failed, ExecuteSafe delivered %q (error %v), want %q", clip(string(w2.Got), 200), r2.err, clip(ref, 200)))
+				}
+			}
 		}
 	}
 	// (b) loader failing at every k
@@ -495,7 +508,7 @@ func (p *c17) Run(i int) (res fw.Result) {
 }
 
 func (p *c17) Rule() string {
-	return "per template (20 hand-written ones covering every construct that writes: text, print, filter sections incl. nested and last-in-template, loops, include, embed, set-capture, macros, block(), if, import/from, verbatim, for-else; two inheritance chains with parent(); plus seeded programs from the generator: 300 quick / 3000 thorough): fault-free Execute and ExecuteSafe first (ExecuteSafe must deliver byte-identical output, or nothing if rendering fails), then EVERY fault point: (a) the destination writer failing at its k-th Write for every k=1..W, once rejecting the whole write and once accepting half of it; (b) the loader failing at its k-th Load for every k=1..L, once with an error and once by returning a syntactically broken template, through Execute and ExecuteSafe; (c) for generated programs a failing construct inserted at every node boundary - either a whole statement (unknown function, missing include, invalid regular expression, unknown filter section, modulo by zero) or one of 4 failing sub-expressions carried in one of 31 expression positions (first / middle / last argument of a function, filter, test, method or imported macro, array and hash elements, either operand, conditional parts, attribute key, interpolation, set value, if/elseif condition, loop sequence and condition, include name and with-hash, inside captures and filter sections) - of the main template's structure tree, nested bodies included, with a recorded marker call in front of it telling whether it was executed. Oracles: non-nil error, accepted bytes are a prefix of the fault-free output, no Write after a failed Write, ExecuteSafe made no Write at all on failure. Non-trivial = template with >=2 writes; distinct = template."
+	return "per template (20 hand-written ones covering every construct that writes: text, print, filter sections incl. nested and last-in-template, loops, include, embed, set-capture, macros, block(), if, import/from, verbatim, for-else; two inheritance chains with parent(); plus seeded programs from the generator: 300 quick / 3000 thorough): fault-free Execute and ExecuteSafe first (ExecuteSafe must deliver byte-identical output, or nothing if rendering fails), then EVERY fault point: (a) the destination writer failing at its k-th Write for every k=1..W, once rejecting the whole write, once accepting half of it and once accepting all of it but reporting an error; ExecuteSafe with a failing destination (3 modes) followed by successful ExecuteSafe calls on the same and on a fresh environment, which must deliver exactly their own output; (b) the loader failing at its k-th Load for every k=1..L, once with an error and once by returning a syntactically broken template, through Execute and ExecuteSafe; (c) for generated programs a failing construct inserted at every node boundary - either a whole statement (unknown function, missing include, invalid regular expression, unknown filter section, modulo by zero) or one of 4 failing sub-expressions carried in one of 31 expression positions (first / middle / last argument of a function, filter, test, method or imported macro, array and hash elements, either operand, conditional parts, attribute key, interpolation, set value, if/elseif condition, loop sequence and condition, include name and with-hash, inside captures and filter sections) - of the main template's structure tree, nested bodies included, with a recorded marker call in front of it telling whether it was executed. Oracles: non-nil error, accepted bytes are a prefix of the fault-free output, no Write after a failed Write, ExecuteSafe made no Write at all on failure. Non-trivial = template with >=2 writes; distinct = template."
 }
 
 func (p *c17) Assumptions() []string {
